@@ -14,7 +14,7 @@ PROP = "C18"
 LEVEL = "exploration"
 RULE = ("reduced cells (conforming-cell lists and the cell alphabet, kept iff their own basis vectors are the successive minima of the lattice) x "
         "every unimodular integer matrix with entries in {-1,0,1} under which the reduced basis keeps coefficients |u|,|v|,|w| <= 2 in the new "
-        "basis (all of them in thorough, those with at most 4 non-zero entries in quick) x both modules. Oracle: same volume; the output "
+        "basis (all of them in thorough, those with at most 4 non-zero entries in quick) plus the 20 shears with coefficients +-2 x both modules. Oracle: same volume; the output "
         "lengths are the three successive minima of the lattice (computed in the harness over [-4,4]^3); an integer matrix T with det +-1 "
         "and T'G_in T = G_out exists (search over integer vectors of matching length). distinct_nontrivial = distinct (module, reduced cell, T) "
         "with T != identity.")
@@ -38,6 +38,18 @@ def unimodular(tier):
         if np.max(np.abs(Mi)) > 2:
             continue
         out.append(M)
+    # shears with coefficient +-2 (the reduced vectors then need the coefficient 2 at the edge of the search range)
+    for i, j in itertools.permutations(range(3), 2):
+        for k in (2, -2):
+            M = np.eye(3, dtype=int)
+            M[i, j] = k
+            out.append(M)
+    for k1, k2 in ((2, 1), (-2, 1), (2, -2), (1, -2)):
+        M = np.eye(3, dtype=int)
+        M[0, 2] = k1
+        M[1, 2] = k2
+        out.append(M)
+        out.append(M.T.copy())
     out.sort(key=lambda M: (int(np.sum(np.abs(M))), M.tolist()))
     return out
 
